@@ -338,7 +338,12 @@ func ScaledFamilies(big bool) []Scaled {
 	}
 	// operand indices >= 241 in every instruction kind that takes a constant or a slot:
 	// bind type, block type and name, field get/set, local get/set, POPN count
-	for _, n := range []int{238, 239, 240, 241, 242, 255, 256, 257, 258, 300, 511, 512, 513, 1000, 2287, 2288, 2289, 2303, 2304, 2305, 2543, 2544, 2545, 2800, 3000, 4400} {
+	poolSizes := []int{238, 239, 240, 241, 242, 255, 256, 257, 258, 300, 511, 512, 513, 1000, 2287, 2288, 2289, 2303, 2304, 2305, 2543, 2544, 2545, 2800, 3000, 4400}
+	if big {
+		// more constants than a 16-bit index can number (and the first 4-byte operand form, from 67824)
+		poolSizes = append(poolSizes, 65534, 65540, 67900)
+	}
+	for _, n := range poolSizes {
 		var b strings.Builder
 		for i := 0; i < n; i++ {
 			fmt.Fprintf(&b, "print %d\n", i+2)
@@ -353,6 +358,9 @@ func ScaledFamilies(big bool) []Scaled {
 			add(fmt.Sprintf("constpool-rterr-bindcount-%d", n), pre+"def blk { fld = 5 }\ndef blk { fld = 6 }\n\n\tbind blk -> struct\n")
 			add(fmt.Sprintf("constpool-warn-%d", n), pre+"def blk { fld = 5 }\n\nbind blk -> struct\n\n   bind blk:first -> slice\nbind blk:last -> slice\n")
 			add(fmt.Sprintf("constpool-rterr-types-%d", n), pre+"def blk {\n fld = \"a new string\" - 1\n}\n")
+		}
+		if n > 5000 {
+			continue
 		}
 		var v strings.Builder
 		for i := 0; i < n; i++ {
